@@ -158,6 +158,10 @@ Theorem source_framenum : forall fuel v spf fo nf value fs fe,
   framenum_shape fuel v spf fo nf value fs fe = framenum_cur fuel v spf fo nf value fs fe.
 Proof. exact framenum_shape_eq. Qed.
 
+Theorem source_extrapolate : forall v value limit eof,
+  extrapolate_shape v value limit eof = extrapolate v value limit eof.
+Proof. exact extrapolate_shape_eq. Qed.
+
 Theorem source_conditions : forall e,
   (if fs_c2 e then fs_a0 e else fs_a1 e) = sample_start (ShapeEnv.e_spf e) (ShapeEnv.e_fo e) (ShapeEnv.e_fs e) /\
   (if fs_c3 e then fs_a2 e else fs_a3 e) = sample_end (ShapeEnv.e_spf e) (ShapeEnv.e_nf e) (ShapeEnv.e_fe e) /\
